@@ -17,11 +17,14 @@ Inductive case :=
 | CRun2 (channels : nat) (fuel : positive) (s : src2) (exact : bool) (impl : iobs) (dflt : steps_t) (dflt_total : Q)
 | CScale (channels : nat) (fuel : positive) (s : src) (hw : list (option N * (Q * Q))) (by_idx : list (Q * Q))
          (impl : iobs) (dflt : steps_t) (dflt_total : Q)
+(* a hold whose duration depends on the loop index, built by driving LinSpaceBuilder directly (outside the quantifier of
+   the property): the translator refuses it; dflt = the default program of the corresponding template *)
+| CDur (duration_factors : list Q) (impl : iobs) (dflt : steps_t) (dflt_total : Q)
 | CCrash.
 
 Definition err_eqb (a b : err) : bool :=
   match a, b with
-  | EAttr, EAttr | EAssert, EAssert | EKey, EKey | EIndex, EIndex | EDiv, EDiv | EFuel, EFuel => true
+  | EAttr, EAttr | EAssert, EAssert | EKey, EKey | EIndex, EIndex | EDiv, EDiv | EFuel, EFuel | ENotImpl, ENotImpl => true
   | _, _ => false
   end.
 
@@ -54,6 +57,12 @@ Definition check_corr (c : case) : bool :=
   | CScale ch fuel s hw _ impl dflt dtot =>
       obs_eqb true (pipeline_transformed fuel ch hw s) impl
       && (let '(st, tot) := staircase s in steps_eqb 0 st dflt && Qeq_bool tot dtot)
+  | CDur dfs impl _ _ =>
+      match hold_duration_check dfs, impl with
+      | Err e, IErr e' => err_eqb e e'
+      | Ok _, IHist _ _ => true
+      | _, _ => false
+      end
   | CCrash => false
   end.
 
@@ -81,6 +90,13 @@ Definition check_spec (c : case) : bool :=
       match impl with
       | IHist h tot => hist_matches 0 h (scale_steps by_idx dflt) && Qeq_bool tot dtot
       | IErr _ => false
+      end
+  | CDur _ impl dflt dtot =>
+      (* an explicit refusal plays nothing (the property holds vacuously); anything that is played must be the staircase *)
+      match impl with
+      | IErr ENotImpl => true
+      | IErr _ => false
+      | IHist h tot => hist_matches 0 h dflt && Qeq_bool tot dtot
       end
   | CCrash => false
   end.
